@@ -103,3 +103,65 @@ Qed.
 
 Theorem promotable_mode_symmetry m c : promotable Max (- m) (- c) = promotable Min m c.
 Proof. rewrite !promotable_is_no_worse. simpl. apply Qleb_iff_eq. split; intro; lra. Qed.
+
+(* ---- DEHB selection --------------------------------------------------------------------------- *)
+Theorem dehb_selection_mode_symmetry ds trial target m tm :
+  dehb_selection Max ds trial target (- m) (option_map Qopp tm) = dehb_selection Min ds trial target m tm.
+Proof.
+  unfold dehb_selection. destruct ds; [|reflexivity]. destruct tm as [tm|]; simpl; [|reflexivity].
+  rewrite (Qleb_iff_eq 0 ((-1 # 1) * (- m - - tm)) 0 (1 * (m - tm))); [reflexivity|]. split; intro; lra.
+Qed.
+
+(* the selection itself: the target wins iff it is no worse (ties go to the target in both modes) *)
+Theorem dehb_selection_rule md trial target m tm :
+  dehb_selection md true trial target m (Some tm) = if no_worse md tm m then target else trial.
+Proof.
+  unfold dehb_selection. destruct md; simpl.
+  - rewrite (Qleb_iff_eq 0 (1 * (m - tm)) tm m); [reflexivity|]. split; intro; lra.
+  - rewrite (Qleb_iff_eq 0 ((-1 # 1) * (m - tm)) m tm); [reflexivity|]. split; intro; lra.
+Qed.
+
+(* ---- regularized evolution -------------------------------------------------------------------- *)
+Theorem rea_score_mode_symmetry m : rea_score Max (- m) = rea_score Min m.
+Proof. apply neg_times_minus_one. Qed.
+
+Theorem rea_update_mode_symmetry n pop trial m :
+  rea_update Max n pop trial (- m) = rea_update Min n pop trial m.
+Proof. unfold rea_update. rewrite rea_score_mode_symmetry. reflexivity. Qed.
+
+(* ---- MOASHA per-metric modes -------------------------------------------------------------------- *)
+Definition flip_mode (md : mode) : mode := match md with Min => Max | Max => Min end.
+(* flip the mode and negate the value of the metrics selected by [mask] *)
+Fixpoint flip_modes (mask : list bool) (modes : list mode) : list mode :=
+  match mask, modes with
+  | b :: bs, md :: ms => (if b then flip_mode md else md) :: flip_modes bs ms
+  | _, _ => modes
+  end.
+Fixpoint negate_vals (mask : list bool) (vals : list Q) : list Q :=
+  match mask, vals with
+  | b :: bs, v :: vs => (if b then - v else v) :: negate_vals bs vs
+  | _, _ => vals
+  end.
+
+Lemma signed_flip md (v : Q) : (- v) * metric_op (flip_mode md) = v * metric_op md.
+Proof.
+  destruct v as [a b]. destruct md; unfold Qmult, Qopp, metric_op; simpl; f_equal; lia.
+Qed.
+
+Theorem moasha_metric_dict_mode_symmetry mask : forall modes vals,
+  moasha_metric_dict (flip_modes mask modes) (negate_vals mask vals) = moasha_metric_dict modes vals.
+Proof.
+  induction mask as [|b bs IH]; intros [|md ms] [|v vs]; simpl; try reflexivity;
+    destruct b; simpl; rewrite ?IH, ?signed_flip; reflexivity.
+Qed.
+
+(* ---- ExperimentResult.best_config ---------------------------------------------------------------- *)
+Lemma argbest_from_neg l : forall i j x,
+  argbest_from Max (map Qopp l) i (j, - x) = argbest_from Min l i (j, x).
+Proof.
+  induction l as [|y l IH]; intros i j x; simpl; [reflexivity|].
+  rewrite Qltb_neg. destruct (Qltb y x); apply IH.
+Qed.
+
+Theorem best_index_mode_symmetry l : best_index Max (map Qopp l) = best_index Min l.
+Proof. destruct l as [|x l]; simpl; [reflexivity|]. f_equal. apply argbest_from_neg. Qed.
